@@ -439,6 +439,17 @@ def alias_substitution(prog: Program, rep: Report, rule: str):
                 if any((not val) and T.is_call_to(a, "inspect.isclass") and a[2][:1] == (h,) for a, val in atoms) or any(val and T.is_call_to(a, f"{C.INSP}.issubscriptedgeneric", "typing.get_origin") and a[2][:1] == (h,) for a, val in atoms):
                     continue
                 why = "a member annotated with a bare generic class (`raw: Box` inside `Holder(Generic[T])`) is re-subscripted with the alias's arguments because the class, too, has __parameters__: Holder[int] converts raw.v to int, input that Holder and Box pass through is rejected or silently re-typed"
+    # a member that *is* one of the class's parameters is looked up in the map -- under the test that it is a key of the map
+    is_map = lambda z: T.is_call_to(z, "builtins.dict") and len(z[2]) == 1 and is_zip(z[2][0])  # noqa: E731
+    for p in ps:
+        for tm in p.all_terms():
+            for x in T.walk(tm):
+                if x[0] == "sub" and is_map(x[1]):
+                    h = x[2]
+                    for conds in T.enclosing_conditions(tm, x):
+                        atoms = T.derive_atoms(list(p.guards()) + conds)
+                        if not any(val and a[0] == "cmp" and a[1] == "in" and a[2] == h and a[3] == x[1] for a, val in atoms):
+                            why = "a member is looked up in the parameter->argument map without (or under the negation of) the test that it is one of the class's parameters: KeyError for every member that is not a bare type variable, while `item: T` is left un-substituted"
     for x in sites:
         h, idx = x[1], x[2]
         c = _arg_builder(idx, is_zip)
